@@ -87,11 +87,20 @@ func numericStringExterns() {
 		return VTuple{[]Value{VBV{val}, VIface{errTag, Ite(ok, C64(0), Fresh("err$atoi", BV64))}}}, pc
 	}
 	regExtern("strconv.Atoi", "Atoi(s): (atoi.val(s), nil) when atoi.ok(s), else an error; atoi.val(itoa(x)) == x", atoi)
-	regExtern("strconv.ParseInt", "ParseInt(s, 10, 64): as Atoi; any other base or bit size is a different uninterpreted function",
+	regExtern("strconv.ParseInt", "ParseInt(s, 10, 64): as Atoi; ParseInt(s, 10, n<64): as Atoi and the value fits n bits; any other base is a different uninterpreted function",
 		func(ex *Exec, fr *Frame, st *State, pc *Term, fn *ssa.Function, args []Value, pos token.Pos) (Value, *Term) {
 			base, bits := args[1].(VBV).T, args[2].(VBV).T
 			if base.IsConst() && base.Val == 10 && bits.IsConst() && bits.Val == 64 {
 				return atoi(ex, fr, st, pc, fn, args, pos)
+			}
+			if base.IsConst() && base.Val == 10 && bits.IsConst() && bits.Val >= 1 && bits.Val < 64 {
+				// a decimal string accepted by Atoi whose value fits the requested width
+				s := args[0].(VStr).T
+				v := App("atoi.val", BV64, s)
+				lim := int64(1) << (uint(bits.Val) - 1)
+				ok := And(App("atoi.ok", BoolSort, s), SLe(C64(-lim), v), SLt(v, C64(lim)))
+				errTag := Ite(ok, C64(0), Const(typeTag(types.Universe.Lookup("error").Type())+1001, 64))
+				return VTuple{[]Value{VBV{Ite(ok, v, Fresh("parseint.clamped", BV64))}, VIface{errTag, Ite(ok, C64(0), Fresh("err$parseint", BV64))}}}, pc
 			}
 			s := args[0].(VStr).T
 			ok := App("parseint.ok", BoolSort, s, base, bits)
